@@ -429,27 +429,30 @@ theorem Inner.flatMap_mem {α : Type} (l : List α) (f : α → List Piece) (h :
   | cons x xs ih =>
     simpa using Inner.append (h x List.mem_cons_self) (ih (fun y hy => h y (List.mem_cons_of_mem _ hy)))
 
-theorem graphEdges_inner {ν : Nums} (hν : SafeNums ν) (a : GraphArgs) (pos : List (Rat × Rat))
-    (hec : ∀ c, a.edgeColor = some c → SafeStr c) (hlc : SafeLabelColors a.labelColors) {ps : List Piece}
-    (h : graphEdges ν a pos = .ok ps) : Inner ps := by
-  unfold graphEdges at h
+theorem graphEdgeParts_inner {ν : Nums} (hν : SafeNums ν) (a : GraphArgs) (pos : List (Rat × Rat))
+    (hec : ∀ c, a.edgeColor = some c → SafeStr c) (hlc : SafeLabelColors a.labelColors)
+    {ps : List PyStr × List Piece} (h : graphEdgeParts ν a pos = .ok ps) : AllSafe ps.1 ∧ Inner ps.2 := by
+  unfold graphEdgeParts at h
   split at h
-  · simp only [bind, Except.bind, pure, Except.pure] at h
-    split at h
+  · split at h
     · simp at h
     · rename_i ec hecol
       obtain ⟨h1, h2⟩ := getEdgeColors_safe (defaultEdgeColor_safe hec _) hlc hecol
       split at h
       · simp at h
       · rename_i stored hstored
-        simp only [Except.ok.injEq] at h
-        subst h
-        refine Inner.append ?_ (Inner.append (storedEdges_inner hν _ _ _ h1 hstored) (residEdges_inner hν _ _ h2))
-        split
-        · exact Inner.flatMap_mem _ _ (fun c hc => svgMarker_inner (h1 c (mem_dedup hc)))
-        · exact Inner.nil
-  · simp only [pure, Except.pure, Except.ok.injEq] at h
-    exact h ▸ Inner.nil
+        split at h
+        · simp at h
+        · simp only [Except.ok.injEq] at h
+          subst h
+          refine ⟨?_, Inner.append (storedEdges_inner hν _ _ _ h1 hstored) (residEdges_inner hν _ _ h2)⟩
+          simp only
+          split
+          · exact fun c hc => h1 c (mem_dedup hc)
+          · exact fun c hc => by simp at hc
+  · simp only [Except.ok.injEq] at h
+    subst h
+    exact ⟨fun c hc => by simp at hc, Inner.nil⟩
 
 theorem bistoredEdges_inner {ν : Nums} (hν : SafeNums ν) (es : List Entry) {ec : EdgeColors} (hc : AllSafe ec.colors)
     {ps : List Piece} (h : bistoredEdges ν es ec = .ok ps) : Inner ps := by
